@@ -94,6 +94,17 @@ def enum_units(tier, seed):
             ir = [{"k": "const", "n": "k_flag", "e": L(1), "eager": True}, {"k": "const", "n": "k_two", "e": L(2), "eager": True}, org,
                   {"k": "for", "v": "i_top", "lo": L(1), "hi": L(3), "b": _tw.nest(depth - 1, inner, kinds)}, db(L(0xEE))]
             cases.append({"rom": "low", "files": {}, "ir": ir})
+    # a loop body (or a branch taken inside it) that selects a character table: the selection lasts for that iteration only, as
+    # in the hand-unrolled program, and the text after the loop is encoded with the table of the enclosing scope
+    tf = {"t0.tbl": "41=a\n42=b\n", "t1.tbl": "C1=a\nC2=b\n"}
+    tx = lambda s_: {"k": "text", "s": s_}
+    for body in ([{"k": "table", "f": "t1.tbl"}, tx("ab"), db(["id", "i_0"])],
+                 [db(["id", "i_0"]), {"k": "if", "c": L(1), "t": [{"k": "table", "f": "t1.tbl"}, tx("a")], "e": None}, tx("b")],
+                 [{"k": "if", "c": L(0), "t": [tx("a")], "e": [{"k": "table", "f": "t1.tbl"}]}, tx("ba")],
+                 [{"k": "for", "v": "i_1", "lo": L(0), "hi": L(2), "b": [{"k": "table", "f": "t1.tbl"}, tx("a")]}, tx("b")]):
+        for hi in (1, 2, 3):
+            cases.append({"rom": "low", "files": dict(tf), "ir": [{"k": "table", "f": "t0.tbl"}, org, tx("ab"), {"k": "for", "v": "i_0", "lo": L(0), "hi": L(hi), "b": body}, tx("ab"),
+                                                                 {"k": "if", "c": L(1), "t": [tx("b")], "e": None}, db(L(0xEE))]})
     return {"units": [{"cases": cases[i::4]} for i in range(4)], "exhaustive": False}
 
 
